@@ -92,8 +92,9 @@ async def acallable_iterator(
 ) -> AsyncIterator[T]:
     subject = _awaitify(subject)
     value = await subject()
-    # like the builtin: identity implies equality (e.g. for a ``nan`` sentinel)
-    while not (value is sentinel or value == sentinel):
+    # like the builtin: identity implies equality (e.g. for a ``nan`` sentinel),
+    # and it is the sentinel that is asked first whether it equals the value
+    while not (value is sentinel or sentinel == value):
         yield value
         value = await subject()
 
